@@ -310,7 +310,7 @@ def stage_build(st):
         os.path.getmtime(os.path.join(ddir, s)) > os.path.getmtime(DRIVER) for s in srcs if os.path.exists(os.path.join(ddir, s)))
     if need:
         t0 = time.time()
-        code, out = run(["ocamlfind", "ocamlopt", "-O2", "-w", "-a"] + srcs + ["-o", "avt-driver"], cwd=ddir, timeout=900)
+        code, out = run(["ocamlfind", "ocamlopt", "-package", "unix", "-linkpkg", "-O2", "-w", "-a"] + srcs + ["-o", "avt-driver"], cwd=ddir, timeout=900)
         st["driver_build_s"] = round(time.time() - t0, 1)
         if code != 0:
             st["driver_error"] = out[-2000:]
